@@ -156,6 +156,40 @@ def fam_sanitize(rng, tier):
     return out
 
 
+def fam_sanitize_siblings(rng, count):
+    """C16: several sibling nested schedulers that each need a removal while the level
+    above them is already closed (or not), under both scheduler classes"""
+    out = []
+    kinds = ["sched", "job", "sched", "job", "job", "sched", "job", "job", "sched", "job", "job", "job"]
+    mem = {1: [2, 3, 6, 9], 3: [4, 5], 6: [7, 8], 9: [10]}
+    inner = {3: [4, 5], 6: [7, 8], 9: [10]}
+    for idx in range(count):
+        req = {5: [4], 8: [7], 6: [3]}
+        dirty = rng.sample([3, 6, 9], rng.randint(1, 3))
+        for s in dirty:
+            for _ in range(rng.randint(1, 2)):
+                a = rng.choice(inner[s])
+                b = rng.choice([x for x in range(2, 13) if x not in inner[s] and x != a])
+                req.setdefault(a, [])
+                if b not in req[a]:
+                    req[a].append(b)
+        if rng.random() < 0.3:
+            req.setdefault(2, []).append(rng.choice([11, 12, 4, 7]))
+        if rng.random() < 0.3:
+            # a dangling requirement carried by a nested scheduler itself
+            s = rng.choice([3, 6, 9])
+            req.setdefault(s, [])
+            req[s].append(rng.choice([11, 12, 4, 7, 10]))
+            req[s] = [x for x in dict.fromkeys(req[s]) if x not in inner[s] and x != s]
+        k2 = list(kinds)
+        k2[0] = "sched" if idx % 2 else "pure"
+        steps = [{"op": "sanitize", "s": 1, "qs": 1, "qA": []},
+                 {"op": "sanitize", "s": 1},
+                 {"op": "sanitize", "s": rng.choice([3, 6, 9])}]
+        out.append(hist(universe(k2), mem, req, steps, perm(rng, 12)))
+    return out
+
+
 def fam_queries(rng, tier):
     """C17: every DAG on <= 4 nodes, every non-empty set of start jobs, forever flags"""
     out = []
@@ -209,6 +243,35 @@ def fam_surgery(rng, tier):
     return out
 
 
+def fam_double(rng, tier):
+    """C18: two operations in a row with no query in between (whatever the first one
+    leaves behind is what the second one sees): a query, then every ordered pair of
+    bypass targets / a bypass followed by keep_only_between, on every DAG <= 4 nodes"""
+    out = []
+    for k in range(2, 5):
+        for graph in dags(k):
+            jobs = list(range(2, k + 2))
+            kinds = ["sched"] + ["job"] * k
+            mem = {1: jobs}
+            req = {2 + i: [2 + r for r in rs] for i, rs in graph.items()}
+            pairs = [(x, y) for x in jobs for y in jobs if x != y]
+            if tier == "quick" and k == 4:
+                pairs = rng.sample(pairs, 5)
+            for x, y in pairs:
+                steps = [{"op": "query", "qs": 1, "qA": [x]},
+                         {"op": "bypass", "s": 1, "x": x},
+                         {"op": "bypass", "s": 1, "x": y, "qs": 1, "qA": [z for z in jobs if z not in (x, y)][:1]}]
+                out.append(hist(universe(kinds), mem, req, steps, perm(rng, k + 1)))
+            for x in (jobs if tier != "quick" else jobs[:2]):
+                rest = [z for z in jobs if z != x]
+                steps = [{"op": "query", "qs": 1, "qA": [x]},
+                         {"op": "bypass", "s": 1, "x": x},
+                         {"op": "keep_between", "s": 1, "A": rest[:1], "B": rest[-1:], "f1": True, "f2": rng.random() < 0.5,
+                          "qs": 1, "qA": rest[:1]}]
+                out.append(hist(universe(kinds), mem, req, steps, perm(rng, k + 1)))
+    return out
+
+
 def fam_random(rng, count, ops=None, nmax=12):
     """random trees (depth <= 3) and random sequences of API calls ("auto" steps)"""
     ops = ops or ["requires", "requires", "add", "update", "remove", "sanitize", "bypass",
@@ -252,7 +315,11 @@ def fam_random(rng, count, ops=None, nmax=12):
         forever = [False] + [rng.random() < 0.2 for _ in range(n - 1)]
         steps = []
         for _ in range(rng.randint(5, 30)):
-            steps.append({"op": rng.choice(ops), "auto": True, "qs": "auto", "qA": "auto"})
+            if rng.random() < 0.55:
+                steps.append({"op": rng.choice(ops), "auto": True, "qs": "auto", "qA": "auto"})
+            else:
+                # no query after this edit: whatever the library caches is left as the edit left it
+                steps.append({"op": rng.choice(ops), "auto": True})
         out.append(hist(universe(kinds, forever), mem, req, steps, perm(rng, n),
                         seed=rng.randrange(1 << 30)))
     return out
@@ -269,7 +336,7 @@ def histories(prop, tier, seed):
         desc = "all digraphs <= %d nodes at 3 nesting levels under both scheduler classes; " \
                "back-and-forth edge mutations; random histories" % (3 if quick else 4)
     elif prop == "C16":
-        out = fam_sanitize(rng, tier) + \
+        out = fam_sanitize(rng, tier) + fam_sanitize_siblings(rng, 300 if quick else 4000) + \
             fam_random(rng, nrand, ["sanitize", "sanitize", "requires", "add", "remove", "keep_only"])
         desc = "nested tree x every placement of <= 2 extra edges (pairs sampled in quick); random histories"
     elif prop == "C17":
@@ -277,7 +344,7 @@ def histories(prop, tier, seed):
             fam_random(rng, nrand, ["query", "query", "requires", "add", "remove", "bypass", "sanitize"])
         desc = "all DAGs <= 4 nodes x all non-empty start sets x forever flags; random edit histories"
     elif prop == "C18":
-        out = fam_surgery(rng, tier) + \
+        out = fam_surgery(rng, tier) + fam_double(rng, tier) + \
             fam_random(rng, nrand, ["bypass", "keep_only", "keep_between", "keep_between", "requires", "sanitize"])
         desc = "all DAGs <= 4 nodes x every bypass target / keep_only subset / starts, ends (size <= 2) " \
                "x keep flags (sampled in quick); random operation sequences on graphs <= 12 nodes"
